@@ -1,4 +1,6 @@
 import BM.Proofs.Step
+import BM.Proofs.SkipText
+import BM.Props.C09
 /-
   C08: content of disallowed invisible-content elements is removed.  Proved (event level):
   * while `skipElementContent` is set nothing but the space of AddSpaceWhenStrippingTag is
@@ -7,13 +9,14 @@ import BM.Proofs.Step
   * a disallowed non-void element of the skip set switches skipping on and counts one level;
     its end tag counts one level down and skipping ends exactly when the count returns to 0;
   * an end tag that merely matches an element *pattern* no longer ends skipping.
-  The statement for whole well-nested documents (depth counting = number of open disallowed
-  skip-content ancestors) is checked by `oracleC08` on the exhaustively enumerated documents
-  of the `directed` family; its proof by induction over well-nested token lists is future
-  work (DESIGN §6 C08).
+  The statement for whole well-nested documents is `C08_events` / `C08_bytes`: the text written
+  (re-read from the returned bytes, for plain policies) is exactly the input's text outside
+  every disallowed skip-content element (`Spec.visibleTextAux`: depth = number of open
+  disallowed skip-content ancestors), proved with the open-element simulation of
+  `Proofs/Nesting.lean` for inputs without script/style tags (their bodies are C05's).
 -/
 namespace BM.Props
-open BM BM.Html
+open BM BM.Html BM.Spec
 
 /-- nothing but spaces is written while skipping (comments excepted: they are written
     regardless, as in the Go code) -/
@@ -58,5 +61,47 @@ example :
                         setOfElementsAllowedWithoutAttrs := [b!"b", b!"my-el"],
                         setOfElementsToSkipContent := [b!"object"] }
     p.sanitizeCore b!"a<object>1<b>2</b><my-el>x</my-el>LEAK<object>3</object>4</object>z" = b!"az" := by decide
+
+/-! ### whole documents -/
+
+/-- **C08 (event level)**: for every policy without AllowUnsafe and AddSpaceWhenStrippingTag and
+    every well-nested input without script/style tags, the loop writes the serialisation of a
+    token list whose text is exactly the input's text outside every disallowed skip-content
+    element; nesting of such elements is honoured (the depth is counted). -/
+theorem C08_events (p : Policy) (hu : p.ensureInit.allowUnsafe = false) (hs : p.ensureInit.addSpaces = false)
+    (input : Bytes) (hwn : wellNested (tokenize input) = true)
+    (hnos : ∀ t ∈ tokenize input, isTag t = true → isScriptOrStyle t.data = false) :
+    ∃ ws toks, p.ensureInit.run {} (tokenize input) = (ws, false) ∧
+      RunWrites p.ensureInit (tokenize input) ws toks ∧
+      textOf toks = visibleTextAux p.ensureInit 0 [] (tokenize input) :=
+  nest_text p.ensureInit hu hs (tokenize input) [] {} (abs_init _) rfl (by simp)
+    (tokenizeAux_nameOK _ _ _) hnos hwn
+
+/-- **C08 (byte level, plain policies)**: the text an HTML tokenizer reads from the returned bytes
+    is exactly the input's text outside every disallowed skip-content element. -/
+theorem C08_bytes (p : Policy) (hp : Plain p.ensureInit) (hs : p.ensureInit.addSpaces = false)
+    (input : Bytes) (hwn : wellNested (tokenize input) = true)
+    (hnos : ∀ t ∈ tokenize input, isTag t = true → isScriptOrStyle t.data = false) :
+    textOf (tokenize (p.sanitizeCore input)) = visibleTextAux p.ensureInit 0 [] (tokenize input) := by
+  obtain ⟨ws, toks, hrun, ⟨hbytes, hprov⟩, htext⟩ := C08_events p hp.noUnsafe hs input hwn hnos
+  have hseg : ∀ k ∈ toks, SegOK k := by
+    intro k hk
+    obtain ⟨t, ht, hpr⟩ := hprov k hk
+    exact prov_segOK hp (tokenize_wf input t ht) hpr
+  have hb : p.sanitizeCore input = renderAll toks := by
+    unfold Policy.sanitizeCore Policy.sanitizeTokens
+    rw [hrun]
+    simp only
+    unfold TokBytes at hbytes
+    rw [hbytes, flatten_map_render]
+  rw [hb, tokenize_renderAll toks hseg, textOf_coalesce]
+  simpa using htext
+
+/-- non-vacuity: nested skipped elements, an allowed element inside a skipped one -/
+example :
+    let p : Policy := { initialized := true, elsAndAttrs := [(b!"b", [])], setOfElementsAllowedWithoutAttrs := [b!"b"],
+                        setOfElementsToSkipContent := [b!"object", b!"title"] }
+    visibleTextAux p 0 [] (tokenize b!"a<object>x<b>y</b><object>z</object>w</object>c<i>d</i>") = b!"acd" ∧
+    p.sanitizeCore b!"a<object>x<b>y</b><object>z</object>w</object>c<i>d</i>" = b!"acd" := by decide
 
 end BM.Props
